@@ -1,0 +1,61 @@
+//go:build verif
+
+// Contracts for the contract-based verification in /verif (comment-only file).
+
+package trust
+
+//@ import cppki "github.com/scionproto/scion/pkg/scrypto/cppki"
+//@ import scrypto "github.com/scionproto/scion/pkg/scrypto"
+
+//@ # ---- C35: the trust store only advances along verified TRC successions.
+//@ # Abstract store (ghost): the latest TRC of the ISD in question is (stKey, stBase, stSerial); insCount counts
+//@ # successful insertions. DB.SignedTRC with the "latest" wildcard returns that TRC; DB.InsertTRC may only be
+//@ # called with the TRC that most recently passed SignedTRC.Verify, verified against exactly the TRC that is latest at
+//@ # that moment (call-site obligation over the call log cppki.okKey / cppki.okPred).
+//@ ghost var stKey uint64
+//@ ghost var stBase uint64
+//@ ghost var stSerial uint64
+//@ ghost var insCount int
+
+//@ iface DB.SignedTRC
+//@   modifies nothing
+//@   ensures result1 == nil && id.Base == scrypto.LatestVer && id.Serial == scrypto.LatestVer && !cppki.zeroSigned(result0) ==> result0.TRC.ID.ISD == id.ISD && cppki.trcKey(result0.TRC) == stKey && uint64(result0.TRC.ID.Serial) == stSerial && uint64(result0.TRC.ID.Base) == stBase && result0.TRC.Quorum >= 1
+
+//@ iface DB.InsertTRC
+//@   requires cppki.okKey == cppki.trcKey(trc.TRC) && cppki.okPred == stKey
+//@   requires uint64(trc.TRC.ID.Serial) == stSerial + 1 && uint64(trc.TRC.ID.Base) == stBase
+//@   modifies stKey, stSerial, insCount
+//@   ensures result1 == nil ==> stKey == cppki.trcKey(trc.TRC) && stSerial == old(stSerial) + 1 && insCount == old(insCount) + 1
+//@   ensures result1 != nil ==> stKey == old(stKey) && stSerial == old(stSerial) && insCount == old(insCount)
+
+//@ iface Fetcher.TRC
+//@   modifies nothing
+//@ iface Recurser.AllowRecursion
+//@   modifies nothing
+//@ iface Router.ChooseServer
+//@   modifies nothing
+
+//@ extern github.com/opentracing/opentracing-go.StartSpanFromContext
+//@   modifies nothing
+//@   ensures result0 != nil
+//@ # option functions only fill in the options value
+//@ func applyOptions
+//@   trusted
+//@   modifies nothing
+//@ func setProviderMetric
+//@   trusted
+//@   modifies nothing
+
+//@ func (FetchingProvider).NotifyTRC
+//@   props C35
+//@   requires p.DB != nil && p.Recurser != nil && p.Router != nil && p.Fetcher != nil
+//@   requires stSerial < 0xffffffffffffff00 && uint64(id.Serial) < 0xffffffffffffff00 && insCount >= 0 && insCount < 0x7fffffff00000000
+//@   let s0 = stSerial
+//@   let c0 = insCount
+//@   loop 1 invariant cppki.trcKey(trc.TRC) == stKey && uint64(trc.TRC.ID.Serial) == stSerial && stBase == uint64(id.Base) && uint64(trc.TRC.ID.Base) == stBase && trc.TRC.ID.ISD == id.ISD && trc.TRC.Quorum >= 1
+//@   loop 1 invariant uint64(serial) == stSerial + 1 && stSerial >= s0 && stSerial <= uint64(id.Serial) && insCount - c0 == int(stSerial - s0) && stBase == old(stBase)
+//@   ensures stSerial >= s0 && stBase == old(stBase)
+//@   ensures insCount - c0 == int(stSerial - s0)
+//@   ensures uint64(id.Base) != old(stBase) ==> insCount == c0
+//@   ensures uint64(id.Serial) <= s0 ==> insCount == c0
+//@   ensures result == nil && uint64(id.Base) == old(stBase) && uint64(id.Serial) > s0 ==> stSerial == uint64(id.Serial) || insCount == c0
